@@ -185,6 +185,15 @@ def gen_box_case(r, maxlen, ctx=None):
             ops.append(gen_solve_op(r, ctx))
     if r.chance(1, 3):
         ops.append(gen_solve_op(r, ctx, full=True))          # a whole run of QpSolver::solve to its stopping rule
+    if r.chance(1, 5):
+        # a whole run of BiasSolver::solve (inner solves + the Rprop rule on the bias), with and without the sum-to-zero projection;
+        # small iteration limits exercise the "inner solve did not reach the accuracy" exit
+        num, sh = r.choice([(1, 6), (1, 10), (1, 3), (1, 0)])
+        mi = r.choice([3000, 3000, 3000, 40, 7, 0])
+        stz = r.below(2)
+        ops.append(f"biassolve {num} {sh} {mi} {stz}")
+        if ctx is not None:
+            ctx.hist("biassolve_eps", f"{num}/2^{sh}"); ctx.hist("biassolve_maxiter", mi); ctx.hist("biassolve_sumToZero", stz)
     if ctx is not None:
         ctx.hist("box_family", fam); ctx.hist("box_classes", c); ctx.hist("box_examples", n)
         ctx.hist("box_C", f"{cnum}/2^{cshift}"); ctx.hist("box_kernel_scale", f"2^-{kshift}")
@@ -213,6 +222,7 @@ def gen_sx_case(r, maxlen, ctx=None):
         t = o.split()
         if t[0] == "deactex": t = ["deactvar", t[1]]
         if t[0] == "select1": t = [r.choice(["select", "kkt"])]
+        if t[0] == "biassolve": continue                  # (BiasSolverSimplex::solve is not modelled)
         out.append("x" + " ".join(t))
     if ctx is not None:
         h = out[0].split()
@@ -353,7 +363,7 @@ def correspond_box(ctx, name, cases, hcmd, dcmd, max_report=4):
     for k_, v_ in big.info.items():
         ctx.count(f"{name}_info_{k_}_lines", v_)      # e.g. gain returned by solveSub != change of the dual objective (a note, not a finding)
     for l in big.impl:
-        m = re.match(r"it=(\d+) stop=(\d+) ", l)
+        m = re.match(r"(?:bias=\S+ )?it=(\d+) stop=(\d+) ", l)
         if m:      # a whole run of QpSolver::solve: how it ended and how long it ran
             it = int(m.group(1))
             ctx.hist(name + "_solve_stop", {"1": "accuracy", "4": "maxIterations"}.get(m.group(2), m.group(2)))
